@@ -1842,3 +1842,7 @@ mod tests {
         }
     }
 }
+
+#[cfg(feature = "verif-hooks")]
+#[path = "verif/info.rs"]
+pub mod verif_hooks;
